@@ -9,25 +9,32 @@ from rig import Infra
 META = {
     "title": "Escaped values decode back to the original",
     "engine": "Escapers",
-    "technique": "TLA+ reference decoders written from the standards (HTML character references, ECMAScript and JSON string literals, CSS escapes, percent-decoding) + branch-by-branch transcription of scriggo's escapers, model-checked by TLC (Decode(Escape(s)) = s for every string over per-language class alphabets); the same strings, the slice 'escape-relevant byte x every ASCII successor' and seeded random valid/invalid UTF-8 are rendered by real templates in 13 string-bearing contexts and every rendered slice is decoded and judged by the TLC Trace spec",
+    "technique": "TLA+ reference decoders written from the standards (HTML character references, ECMAScript and JSON string literals, CSS escapes, percent-decoding) + branch-by-branch transcription of scriggo's escapers, model-checked by TLC (Decode(Escape(s)) = s for every string over per-language class alphabets); the same strings, the slice 'escape-relevant byte x every ASCII successor' and seeded random valid/invalid UTF-8 are rendered by real templates in 13 string-bearing contexts and every rendered slice is decoded and judged by the TLC Trace spec. Second case space, also enumerated by TLC: URL programs - several rendering steps in ONE href / srcset attribute (literal text and path-position values that may bring the '?', then one or two query value slots, tails, a second URL of a srcset) - with a transcription of the renderer's URL state machine (renderer.Text / showInURL: query, removeQuestionMark, addAmpersand) model-checked against the reference; the reference locates each query value slot in the real rendered attribute by its parameter name and percent-decodes it",
     "level": "model_checking",
-    "level_text": "TLC checks, for every string of up to 2 (quick) / 4 (thorough) tokens over an 18-token class alphabet per target language, up to 4 (quick) / 5 (thorough) tokens over its 10-token core alphabet, every single byte and the pair slice, that each transcribed escaper followed by the reference decoder of its context is the identity (and that the as-found CSS separator rule fails exactly on 'hex escape followed by c-f/C-F'). The exported strings, all single bytes, the pair slice (escape-relevant byte followed by each of the 128 ASCII bytes and 8 non-ASCII successors) and seeded random strings are rendered through Template.Run in 13 contexts (HTML text, 3 attribute forms, JS string in <script> and .js, JSON string, CSS string in <style> and .css and a .css string where a hex letter follows the value, URL query value, URL path quoted/unquoted); TLC decodes each real output slice with the reference decoder and compares it with the input.",
-    "level_note": "Trusted: TLC, the Json community module, the Go driver (builds 13 fixed templates, runs them, slices the output between the fixed text, logs - no decoding in Go). The named-character-reference table of the reference holds the 55 names denoting ASCII/U+00A0 (not all 2231). Exceptions to exact equality, listed in Escapers.tla: NUL in HTML and CSS, bytes that are not valid UTF-8 outside URLs. URL path position is judged modulo pre-existing percent-escapes (reading documented in the spec). Exhaustive up to the stated token lengths only; <script>/<style> termination is C06.",
+    "level_text": "TLC checks, for every string of up to 2 (quick) / 4 (thorough) tokens over an 18-token class alphabet per target language, up to 4 (quick) / 5 (thorough) tokens over its 10-token core alphabet, every single byte and the pair slice, that each transcribed escaper followed by the reference decoder of its context is the identity (and that the as-found CSS separator rule fails exactly on 'hex escape followed by c-f/C-F'). The exported strings, all single bytes, the pair slice (escape-relevant byte followed by each of the 128 ASCII bytes and 8 non-ASCII successors) and seeded random strings are rendered through Template.Run in 13 contexts (HTML text, 3 attribute forms, JS string in <script> and .js, JSON string, CSS string in <style> and .css and a .css string where a hex letter follows the value, URL query value, URL path quoted/unquoted); TLC decodes each real output slice with the reference decoder and compares it with the input. URL programs: TLC checks every program 'prefix (88 forms: up to three segments of literal text and values shown in path position, 9 pieces of URL with/without query) + join (\"\" ? & &amp;) + q= + value [+ tail (&y=2 &amp;y=2 #f) | + (& | &amp;) r= + second value]' in which the value is a query value slot for the reference (238 heads), and the same heads as second URL of a srcset after 8 forms of first candidate and the text ' 1x, ' (144 heads); values: every string of <= 1 token of the 18-token URL alphabet, <= 2 tokens for the 18 core heads (quick) / for every head (thorough); tails, second slots and srcset for the core heads. Every completed program is rendered by a real template (<a href=\"...\"> / <img srcset=\"...\">) and TLC checks on the real attribute value that each slot, located by its parameter name, percent-decodes to the string shown.",
+    "level_note": "Trusted: TLC, the Json community module, the Go driver (builds 13 fixed templates, runs them, slices the output between the fixed text, logs - no decoding in Go). The named-character-reference table of the reference holds the 55 names denoting ASCII/U+00A0 (not all 2231). Exceptions to exact equality, listed in Escapers.tla: NUL in HTML and CSS, bytes that are not valid UTF-8 outside URLs. URL path position is judged modulo pre-existing percent-escapes (reading documented in the spec). Exhaustive up to the stated token lengths only; <script>/<style> termination is C06. URL programs: double-quoted href and srcset only (not src/action/..., not single-quoted/unquoted, not Markdown links); values in path position inside a program are context, not judged; a slot is judged only when its parameter name occurs once in the attribute (otherwise counted as ref_undefined); srcset candidates separated by ', ' only.",
     "design_ref": "7/C07",
 }
 
 # Demonstrated on the unchanged tree (see the final report of the family): prefixWithSpace tests the
 # hex letters 'a'..'b' / 'A'..'B' instead of 'a'..'f' / 'A'..'F'.
-PROPOSED_KNOWN = []   # the defect found by this check (prefixWithSpace) was fixed in /repo (known-findings.json, kind "fixed")
+# (the prefixWithSpace defect found by this check was fixed in /repo: known-findings.json, kind "fixed")
+# Demonstrated on the unchanged tree: in a srcset attribute renderer.Text handles a literal text with a comma by
+# `r.query = false` only - removeQuestionMark/addAmpersand of the URL before the comma stay set and a '?' after the
+# comma in the same text is not seen, so the query values of the next URL of the set are escaped with pathEscape.
+PROPOSED_KNOWN = []   # integrated into known-findings.json
 
 FAMS = ["escapers"]
 MC_INVS = ["RoundTrip", "CssAsFoundExtent", "UrlPreIdentity"]
+MCU_INVS = ["ProgRoundTrip", "ProgAsFoundExtent", "ProgJudged"]      # MC_EscapersUrl: URL programs (several steps in one URL attribute)
 PAR = max(2, min(8, rig.NCPU // 2))       # Trace shards judged by concurrent TLC processes
 RULE = ("per target language, every string of <= GenLen tokens over its 18-token class alphabet and <= GenCore tokens "
         "over its 10-token core alphabet (exported by TLC) x the contexts of that language; every single byte x 13 contexts; "
         "every pair (escape-relevant byte, ASCII byte 0..127 or one of 8 non-ASCII successors) x the contexts of the "
         "language (quick) / x 13 contexts for all 53 escape-relevant bytes (thorough); seeded random valid/invalid UTF-8 "
-        "x 13 contexts; non-trivial = the rendered slice differs from the input")
+        "x 13 contexts; URL programs (ctx url_prog): every program exported by MC_EscapersUrl (heads x values [x tail | second slot] "
+        "for href, first candidate x head x value [x descriptor] for srcset), each rendered once; "
+        "non-trivial = the rendered slice differs from the input")
 
 
 def trace_judge(ctx, step, obs_path):
@@ -70,17 +77,45 @@ def judge(ctx, step, recs):
     return bads, diag
 
 
+def is_prog(o):
+    return o["ctx"] == "url_prog"
+
+
+def okey(o):
+    """identity of the input of an observation"""
+    return (o["ctx"], o["at"], json.dumps(o["segs"])) if is_prog(o) else (o["ctx"], bytes(o["s"]))
+
+
 def case_of(o):
+    if is_prog(o):
+        return {"id": o["id"], "at": o["at"], "segs": o["segs"]}
     return {"id": o["id"], "s": o["s"], "cx": [o["ctx"]]}
 
 
+def prog_text(o):
+    return o["at"] + '="%s"' % "".join(rig.b2s(g["b"]) if g["k"] == "t" else "{{" + rig.b2s(g["b"]) + "}}" for g in o["segs"])
+
+
 def sample(o):
+    if is_prog(o):
+        return {"ctx": o["ctx"], "s": prog_text(o), "out": rig.b2s(o["out"]), "st": o["st"]}
     return {"ctx": o["ctx"], "s": rig.b2s(o["s"]), "out": rig.b2s(o["out"]), "st": o["st"]}
 
 
+def trivial(o):
+    """the rendered text is the input text, byte for byte"""
+    if is_prog(o):
+        return o["out"] == [c for g in o["segs"] for c in g["b"]]
+    return o["out"] == o["s"]
+
+
 def corrupt(o):
-    # a decoder-visible corruption: one extra character in front of the rendered slice
-    o["out"] = [90] + o["out"]
+    # a decoder-visible corruption: one extra character in front of the rendered slice; in a URL
+    # program (out = the whole attribute value) one extra character in front of every parameter value
+    if is_prog(o):
+        o["out"] = [c for x in o["out"] for c in ((x, 90) if x == 61 else (x,))]
+    else:
+        o["out"] = [90] + o["out"]
     o["st"] = "ok"
     return o
 
@@ -88,6 +123,9 @@ def corrupt(o):
 def run(ctx, replay_case=None):
     consts = {"MaxLen": ctx.pick(2, 4), "CoreLen": ctx.pick(4, 5), "GenLen": ctx.pick(2, 3), "GenCore": ctx.pick(3, 4),
               "Full": not ctx.quick}
+    # (TwoAll / SetAll = TRUE - second slot / srcset continuation for every head, not only the core heads - is ~180 k more
+    #  programs: beyond the time budget of either tier)
+    uconsts = {"V2All": not ctx.quick, "TwoAll": False, "SetAll": False}
     extra = ctx.pick(500, 20000)
     if replay_case is not None:
         extra = 0
@@ -105,20 +143,37 @@ def run(ctx, replay_case=None):
     if replay_case is not None:
         rig.write_ndjson(cases, [dict(replay_case, id=1)])
     else:
+        wdu = ctx.stage("mc_url", FAMS)
         rig.write_cfg(wd / "MC_Escapers.cfg", constants=consts, invariants=MC_INVS)
-        r = ctx.tlc(wd, "MC_Escapers", workers=rig.NCPU, timeout=ctx.pick(240, 780), coverage=not ctx.quick)
-        ctx.cov.update(states=r.distinct, transitions=r.generated, mc_wall_s=round(r.wall, 1), mc_invariants=MC_INVS,
-                       bounds=json.dumps(consts, sort_keys=True))
-        if not r.ok:
-            if r.invariant_violated:
-                # counterexample on the implementation-shaped model: diagnostic; the verdict is decided on the real code
-                ctx.cov["model_counterexample"] = {"invariants": r.invariant_violated, "tlc_out": str(wd / "MC_Escapers.out")}
-            else:
-                raise Infra(f"MC_Escapers failed: {wd}/MC_Escapers.out\n" + rig.tail(r.out, 30))
+        rig.write_cfg(wdu / "MC_EscapersUrl.cfg", constants=uconsts, invariants=MCU_INVS)
+        wu = max(2, rig.NCPU // 4)          # the two model checks run at the same time (the small one on extra workers)
+        with ThreadPoolExecutor(max_workers=2) as ex:
+            f1 = ex.submit(ctx.tlc, wd, "MC_Escapers", workers=rig.NCPU, timeout=ctx.pick(240, 780),
+                           coverage=not ctx.quick)
+            f2 = ex.submit(ctx.tlc, wdu, "MC_EscapersUrl", workers=wu, timeout=ctx.pick(240, 780), coverage=not ctx.quick)
+            r, ru = f1.result(), f2.result()
+        ctx.cov.update(states=r.distinct + ru.distinct, transitions=r.generated + ru.generated,
+                       states_by_model={"MC_Escapers": r.distinct, "MC_EscapersUrl": ru.distinct},
+                       mc_wall_s=round(max(r.wall, ru.wall), 1), mc_invariants=MC_INVS + MCU_INVS,
+                       bounds=json.dumps(dict(consts, **uconsts), sort_keys=True))
+        cex = []
+        for res, mod, d in ((r, "MC_Escapers", wd), (ru, "MC_EscapersUrl", wdu)):
+            if not res.ok:
+                if res.invariant_violated:
+                    # counterexample on the implementation-shaped model: diagnostic; the verdict is decided on the real code
+                    cex.append({"invariants": res.invariant_violated, "tlc_out": str(d / (mod + ".out"))})
+                else:
+                    raise Infra(f"{mod} failed: {d}/{mod}.out\n" + rig.tail(res.out, 30))
+        if cex:
+            ctx.cov["model_counterexample"] = cex[0] if len(cex) == 1 else {"models": cex}
         if not ctx.quick:
-            ctx.cov["actions_never_taken"] = r.coverage_zero()
+            ctx.cov["actions_never_taken"] = r.coverage_zero() + ru.coverage_zero()
         if not cases.exists():
             raise Infra("no cases.ndjson exported by MC_Escapers")
+        if not (wdu / "cases_url.ndjson").exists():
+            raise Infra("no cases_url.ndjson exported by MC_EscapersUrl")
+        with open(cases, "ab") as f:        # one case file: single values, then URL programs
+            f.write((wdu / "cases_url.ndjson").read_bytes())
     lap("model_check_and_export")
     # 2. replay into the real templates
     obs = ctx.work / "obs.ndjson"
@@ -128,9 +183,10 @@ def run(ctx, replay_case=None):
         raise Infra("the driver produced no observation")
     notok = [o for o in allobs if o["st"] != "ok"]
     ctx.cov.update(evaluations=len(allobs), traces_validated_against_impl=len(allobs) - len(notok),
-                   distinct_nontrivial=len({(o["ctx"], bytes(o["s"])) for o in allobs if o["st"] == "ok" and o["out"] != o["s"]}),
+                   distinct_nontrivial=len({okey(o) for o in allobs if o["st"] == "ok" and not trivial(o)}),
                    rule=RULE, exhaustive=True, cases=len({o["id"] for o in allobs}), random_cases=extra,
                    samples=[sample(o) for o in rig.pick_samples(allobs, 4, ctx.seed)],
+                   url_programs=sum(1 for o in allobs if is_prog(o)),
                    not_rendered=len(notok), ref_undefined=0)
     if notok:
         kinds = {}
@@ -149,11 +205,12 @@ def run(ctx, replay_case=None):
     if diag.get("records") != len(allobs):
         raise Infra("Trace_Escapers consumed %s of %d records" % (diag.get("records"), len(allobs)))
     ctx.cov["bad_records_first_pass"] = diag["nbad"]
-    ctx.cov["model_output_mismatch"] = {"transcription_as_found(prefixWithSpace a..b)": diag["drift_asfound"],
-                                        "transcription_with_fix(prefixWithSpace a..f)": diag["drift_fixed"]}
-    both = min(diag["drift_asfound"], diag["drift_fixed"])
+    ctx.cov["ref_undefined"] = diag["ref_undefined"]     # URL programs without a query value slot the reference can judge
+    ctx.cov["model_output_mismatch"] = {"transcription_as_found(prefixWithSpace a..b; srcset comma only clears query)": diag["drift_asfound"],
+                                        "transcription_with_fix(prefixWithSpace a..f; srcset comma starts a new URL)": diag["drift_fixed"]}
+    both = diag["drift_both"]
     if both:
-        ctx.cov["model_drift"] = ("real output differs from BOTH transcriptions of the escapers on at least %d of %d records "
+        ctx.cov["model_drift"] = ("real output differs from BOTH transcriptions of the escapers on %d of %d records "
                                   "(diagnostic only; the verdict is from the reference decoders)" % (both, diag["records"]))
     lap("judge")
     # 4. reproduction guard: the failing cases again, in a fresh process, judged again
@@ -162,7 +219,7 @@ def run(ctx, replay_case=None):
         bads = bads[:300]       # (the Trace spec keeps at most 400 representatives per run; 10 are reported)
         seen, cc = set(), []
         for b in bads:
-            key = (b["obs"]["ctx"], bytes(b["obs"]["s"]))
+            key = okey(b["obs"])
             if key not in seen:
                 seen.add(key)
                 cc.append(dict(case_of(b["obs"]), id=len(cc) + 1))
@@ -177,8 +234,11 @@ def run(ctx, replay_case=None):
     # 5. sensitivity self-test: corrupted observations must be rejected by the same Trace spec
     #    (own run: the Trace spec keeps one record per signature, and a corrupted copy has the signature of its original)
     okobs = [o for o in allobs if o["st"] == "ok"]
+    single = [o for o in okobs if not is_prog(o)]
+    progs = [o for o in okobs if is_prog(o)]
     st = [corrupt(json.loads(json.dumps(o))) for o in
-          rig.pick_samples([o for o in okobs if o["out"] != o["s"]] or okobs, 3, ctx.seed + 7)]
+          rig.pick_samples([o for o in single if not trivial(o)] or single, 3, ctx.seed + 7)
+          + rig.pick_samples(progs, 2, ctx.seed + 8)]
     for i, o in enumerate(st):
         o["id"] = 900001 + i
     _, d3 = judge(ctx, "trace_selftest", st)
